@@ -136,6 +136,15 @@ CLAIMS = {
                 'clock advanced.',
         'note': _NOTE,
     },
+    'C03': {
+        'text': 'One (thorough: two) of 35 uses of the public API with fresh symbolic arguments, '
+                'its world drivers, and an attacker (cancel, double cancel, until-interrupt, '
+                'close) at a symbolic instant (c,p) with both placements; the probe checks every '
+                'delivered signal against the activity it was created for and bounds the '
+                'activations per time step; run() must end normally or with the program own '
+                'exception on every path.',
+        'note': _NOTE,
+    },
 }
 
 NOT_APPLICABLE = {}
